@@ -362,3 +362,229 @@ func Malformed(j *job.Job, s *job.Sink) {
 		}
 	}
 }
+
+// ---- child restrictions against arbitrary parent sets, through the hook accessor ----
+
+func num(v *big.Int, fd int) yang.Number {
+	n := yang.Number{Value: new(big.Int).Abs(v).Uint64(), FractionDigits: uint8(fd)}
+	if v.Sign() < 0 {
+		n.Negative = true
+	}
+	return n
+}
+
+func litAt(v *big.Int, fd int, trim bool) string {
+	neg := v.Sign() < 0
+	a := new(big.Int).Abs(v).String()
+	if fd > 0 {
+		for len(a) <= fd {
+			a = "0" + a
+		}
+		a = a[:len(a)-fd] + "." + a[len(a)-fd:]
+		if trim {
+			a = strings.TrimRight(a, "0")
+			if strings.HasSuffix(a, ".") {
+				a += "0"
+			}
+		}
+	}
+	if neg {
+		a = "-" + a
+	}
+	return a
+}
+
+// Child drives YangRange.parseChildRanges (exported for this purpose by the verif hook
+// file as VerifParseChildRanges) with generated parent sets - random subsets of the
+// built-in ranges, so "arbitrary previously restricted sets" - and child restrictions
+// built from the parent's own bounds, their neighbours, min and max.
+func Child(j *job.Job, s *job.Sink) {
+	one := big.NewInt(1)
+	universes := []struct {
+		name    string
+		lo, hi  *big.Int
+		decimal bool
+	}{
+		{"int8", big.NewInt(-128), big.NewInt(127), false}, {"uint8", big.NewInt(0), big.NewInt(255), false},
+		{"int16", big.NewInt(-32768), big.NewInt(32767), false}, {"uint32", big.NewInt(0), big.NewInt(1<<32 - 1), false},
+		{"int64", new(big.Int).Neg(new(big.Int).Lsh(one, 63)), new(big.Int).Sub(new(big.Int).Lsh(one, 63), one), false},
+		{"uint64", big.NewInt(0), new(big.Int).SetUint64(1<<64 - 1), false},
+		{"decimal64", new(big.Int).Neg(new(big.Int).Lsh(one, 63)), new(big.Int).Sub(new(big.Int).Lsh(one, 63), one), true},
+	}
+	for c := j.Start; c < j.Start+j.Count; c++ {
+		r := prng.For(j.Seed, "C10", "child", c)
+		u := universes[r.Intn(len(universes))]
+		fd := 0
+		if u.decimal {
+			fd = 1 + r.Intn(18)
+		}
+		span := new(big.Int).Sub(u.hi, u.lo)
+		rnd := func() *big.Int {
+			switch r.Intn(6) {
+			case 0:
+				return new(big.Int).Set(u.lo)
+			case 1:
+				return new(big.Int).Set(u.hi)
+			case 2: // near the ends
+				d := big.NewInt(int64(r.Intn(4)))
+				if r.Intn(2) == 0 {
+					return new(big.Int).Add(u.lo, d)
+				}
+				return new(big.Int).Sub(u.hi, d)
+			case 3: // small magnitudes
+				v := big.NewInt(int64(r.Intn(21) - 10))
+				if v.Cmp(u.lo) < 0 {
+					return new(big.Int).Set(u.lo)
+				}
+				return v
+			}
+			v := new(big.Int).Rand(r, new(big.Int).Add(span, one))
+			return v.Add(v, u.lo)
+		}
+		sorted := func(n int) []*big.Int {
+			var pts []*big.Int
+			for i := 0; i < n; i++ {
+				pts = append(pts, rnd())
+			}
+			for i := 1; i < len(pts); i++ {
+				for k := i; k > 0 && pts[k].Cmp(pts[k-1]) < 0; k-- {
+					pts[k], pts[k-1] = pts[k-1], pts[k]
+				}
+			}
+			return pts
+		}
+		// parent: 1-3 parts, coalesced
+		np := 1 + r.Intn(3)
+		pp := sorted(2 * np)
+		var parent []exact.Iv
+		for i := 0; i < np; i++ {
+			parent = append(parent, exact.Iv{Lo: pp[2*i], Hi: pp[2*i+1]})
+		}
+		parent = exact.Coalesce(parent)
+		var py yang.YangRange
+		for _, iv := range parent {
+			py = append(py, yang.YRange{Min: num(iv.Lo, fd), Max: num(iv.Hi, fd)})
+		}
+		pmin, pmax := parent[0].Lo, parent[len(parent)-1].Hi
+		// child: 1-3 parts from interesting points
+		var pool []*big.Int
+		// mostly points inside the parent; one case in three also gets points outside
+		outside := r.Intn(3) == 0
+		for _, iv := range parent {
+			w := new(big.Int).Sub(iv.Hi, iv.Lo)
+			in := new(big.Int).Rand(r, new(big.Int).Add(w, one))
+			pool = append(pool, iv.Lo, iv.Hi, new(big.Int).Rsh(new(big.Int).Add(iv.Lo, iv.Hi), 1), in.Add(in, iv.Lo))
+			if outside {
+				pool = append(pool, new(big.Int).Add(iv.Hi, one), new(big.Int).Sub(iv.Lo, one))
+			}
+		}
+		if outside {
+			pool = append(pool, rnd())
+		}
+		var ok []*big.Int
+		for _, v := range pool {
+			if v.Cmp(u.lo) >= 0 && v.Cmp(u.hi) <= 0 {
+				ok = append(ok, v)
+			}
+		}
+		nc := 1 + r.Intn(3)
+		var cpts []*big.Int
+		for i := 0; i < 2*nc; i++ {
+			cpts = append(cpts, ok[r.Intn(len(ok))])
+		}
+		if r.Intn(8) > 0 { // mostly ascending
+			for i := 1; i < len(cpts); i++ {
+				for k := i; k > 0 && cpts[k].Cmp(cpts[k-1]) < 0; k-- {
+					cpts[k], cpts[k-1] = cpts[k-1], cpts[k]
+				}
+			}
+		}
+		var child []exact.Iv
+		var txt []string
+		partOutOfOrder, rfcOrdered := false, true
+		for i := 0; i < nc; i++ {
+			a, z := cpts[2*i], cpts[2*i+1]
+			if a.Cmp(z) > 0 {
+				partOutOfOrder = true
+			}
+			if i > 0 && a.Cmp(cpts[2*i-1]) <= 0 {
+				rfcOrdered = false
+			}
+			child = append(child, exact.Iv{Lo: a, Hi: z})
+			as, zs := litAt(a, fd, r.Intn(3) == 0), litAt(z, fd, r.Intn(3) == 0)
+			if a.Cmp(pmin) == 0 && r.Intn(2) == 0 {
+				as = "min"
+			}
+			if z.Cmp(pmax) == 0 && r.Intn(2) == 0 {
+				zs = "max"
+			}
+			if a.Cmp(z) == 0 && r.Intn(2) == 0 {
+				txt = append(txt, as)
+			} else {
+				txt = append(txt, as+".."+zs)
+			}
+		}
+		str := strings.Join(txt, []string{"|", " | "}[r.Intn(2)])
+		desc := map[string]any{"parent": ivString(parent), "child": str, "fraction_digits": fd, "universe": u.name}
+		if c%512 == 0 {
+			s.Current(c, desc)
+		}
+		s.Count("child_restrictions", 1)
+		if nc > 1 || len(parent) > 1 {
+			s.Count("nontrivial", 1)
+		}
+		viol := func(class, detail string) {
+			s.Violation(c, j.CaseID(c), "C10.child", class, detail, desc, map[string]any{"universe": u.name})
+		}
+		var got yang.YangRange
+		var err error
+		func() {
+			defer func() {
+				if rec := recover(); rec != nil {
+					err = fmt.Errorf("PANIC %v", rec)
+					viol("panic", fmt.Sprint(rec))
+				}
+			}()
+			got, err = yang.VerifParseChildRanges(py, str, u.decimal, uint8(fd))
+		}()
+		if err != nil && strings.HasPrefix(err.Error(), "PANIC") {
+			continue
+		}
+		union := exact.Coalesce(append([]exact.Iv{}, child...))
+		within := !partOutOfOrder && exact.Subset(union, parent)
+		switch {
+		case partOutOfOrder:
+			if err == nil {
+				viol("accepts-out-of-order-part", fmt.Sprintf("%q within %s accepted as %v", str, ivString(parent), got))
+			}
+			continue
+		case !within:
+			if err == nil {
+				viol("widening-accepted", fmt.Sprintf("%q admits values outside %s and was accepted as %v", str, ivString(parent), got))
+			}
+			s.Count("child_rejected_as_required", 1)
+			continue
+		case !rfcOrdered:
+			if err != nil {
+				continue // overlapping or unsorted parts: rejection or the union are both acceptable
+			}
+		default:
+			if err != nil {
+				viol("rejects-valid", fmt.Sprintf("%q within %s: %v", str, ivString(parent), err))
+				continue
+			}
+		}
+		g := toIv(got, fd)
+		if msg := presentation(g); msg != "" {
+			viol("presentation", fmt.Sprintf("%q within %s -> %v: %s", str, ivString(parent), got, msg))
+		} else if !exact.Equal(g, union) {
+			viol("wrong-set", fmt.Sprintf("%q within %s -> %v, written set %s", str, ivString(parent), got, ivString(union)))
+		} else if !exact.Subset(g, parent) {
+			viol("not-a-subset", fmt.Sprintf("%q within %s -> %v", str, ivString(parent), got))
+		}
+		s.Count("child_accepted_and_compared", 1)
+		if c%20000 == 0 {
+			s.Sample(1, desc)
+		}
+	}
+}
